@@ -504,6 +504,43 @@ def strategy():
     return case()
 
 
+def census_case(n_inst, layout):
+    """Perfect predictions for a label set with exactly `n_inst` ground-truth instances (every count is its own
+    case: ratios such as tp / n must come out exact for EVERY n, not only for the small sets sampling produces)."""
+    per_frame = {"one-per-frame": 1, "four-per-frame": 4, "mixed": 3}[layout]
+    frames, k, f = [], 0, 0
+    while k < n_inst:
+        m = min(per_frame if layout != "mixed" else 1 + (f % 3), n_inst - k)
+        gts, prs = [], []
+        for a in range(m):
+            x0, y0 = 40.0 + 90.0 * a, 60.0 + 7.0 * (f % 5)
+            pose = [[x0, y0], [x0 + 12.0, y0 + 5.0], [x0 + 3.0, y0 + 17.0]]
+            gts.append(pose)
+            prs.append({"pts": [list(p) for p in pose], "score": 0.5 + ((k + a) * 37 % 499) / 1000.0 + (k + a) * 1e-7})
+        frames.append({"idx": f, "video": 0, "gt": gts, "pr": prs, "has_pr_frame": True})
+        k += m
+        f += 1
+    return {
+        "kind": "perfect", "videos": "asset", "n_nodes": 3, "frames": frames, "oks_stddev": 0.025, "oks_scale": None,
+        "match_threshold": 0, "mst": [0.5, 0.75, 0.95], "pck_thr": [1.0, 5.0], "pck_extra": [2.0], "delete": [], "census": n_inst,
+    }
+
+
+def enum_census(tier):
+    top = 160 if tier == "quick" else 1200
+    for n in range(1, top + 1):
+        yield census_case(n, ["one-per-frame", "four-per-frame", "mixed"][n % 3])
+        if tier != "quick":
+            yield census_case(n, ["one-per-frame", "four-per-frame", "mixed"][(n + 1) % 3])
+
+
+def evaluate_census(case):
+    res = evaluate(case)
+    res.nontrivial = True
+    res.classes = [f"census:n_gt={'1-9' if case['census'] < 10 else '10-99' if case['census'] < 100 else '100+'}"] + [c for c in res.classes if c.startswith("kind=")]
+    return res
+
+
 def parts(tier):
     return [
         Part(
@@ -513,7 +550,18 @@ def parts(tier):
             budget={"quick": 800, "thorough": 320000},
             shards={"quick": 1, "thorough": 16},
             min_nontrivial={"quick": 150, "thorough": 8000},
-        )
+        ),
+        # every ground-truth instance count 1..160 (quick) / 1..1200 (thorough) with perfect predictions: exhaustive
+        # over the count, which is the only quantity the normalisations divide by
+        Part(
+            name="instance-count-census",
+            evaluate=evaluate_census,
+            enumerate=enum_census,
+            exhaustive={"quick": True, "thorough": True},
+            shards={"quick": 1, "thorough": 16},
+            min_nontrivial={"quick": 100, "thorough": 1000},
+            summarize=lambda c: {"n_gt_instances": c["census"], "frames": len(c["frames"])},
+        ),
     ]
 
 
